@@ -113,14 +113,14 @@ def write_inputs(d, st, eq, wc, start=None, spelling="int", trail=0):
     return paths
 
 
-def command_line(exe, paths, opts):
-    cmd = [exe, "template=" + paths["st"], "wc=" + paths["wc"], "eq=" + paths["eq"]]
+def command_line(exe, paths, opts, no_template=False):
+    cmd = [exe] + ([] if no_template else ["template=" + paths["st"]]) + ["wc=" + paths["wc"], "eq=" + paths["eq"]]
     if "seq" in paths:
         cmd.append("sequence=" + paths["seq"])
     return cmd + list(opts)
 
 
-def run_ssm(st, eq, wc, opts, seed, sanitize=False, start=None, timeout=20.0, spelling="int", trail=0):
+def run_ssm(st, eq, wc, opts, seed, sanitize=False, start=None, timeout=20.0, spelling="int", trail=0, no_template=False):
     """-> (rc, stdout, stderr, trace_lines, timed_out).  rc is None when the run was killed."""
     exe = build(sanitize)
     with core.scratch("pepper_ssm_") as d:
@@ -133,7 +133,7 @@ def run_ssm(st, eq, wc, opts, seed, sanitize=False, start=None, timeout=20.0, sp
         if sanitize:
             env.update(SAN_ENV)
         timed_out = False
-        proc = subprocess.Popen(command_line(exe, paths, opts), stdout=subprocess.PIPE, stderr=subprocess.PIPE,
+        proc = subprocess.Popen(command_line(exe, paths, opts, no_template), stdout=subprocess.PIPE, stderr=subprocess.PIPE,
                                 env=env, cwd=d)
         try:
             out, err = proc.communicate(timeout=timeout)
